@@ -88,6 +88,9 @@ pub fn judge_live(c: &FCase) -> Verdict {
                 bad!("ip-window", "crash rip {rip:#x} in mapping [{a:#x},{b:#x}): expected window [{ws:#x},{we:#x}) in the memory list, have {:?}", mem.iter().map(|m| (m.start, m.loc.size)).collect::<Vec<_>>());
             }
             expect += 1;
+            if (rip == a && c.ip_neighbors.0) || (rip == b - 1 && c.ip_neighbors.1) {
+                classes.push("ip-at-edge-next-to-another-mapping".to_string());
+            }
             if rip - a < 128 || b - rip <= 128 {
                 classes.push("ip-window-clipped".to_string());
             } else {
